@@ -5,6 +5,7 @@ package main
 // self-contained SMT-LIB2 query which is raced on the installed solvers.
 
 import (
+	"sync/atomic"
 	"bytes"
 	"context"
 	"fmt"
@@ -846,6 +847,109 @@ type dischargeOpts struct {
 	All     bool
 	Workdir string
 	Par     int
+	Split   bool // retry undecided goals by case analysis on a branch condition
+}
+
+// splitProve: an undecided goal is retried by case analysis - first per return path (the disjuncts of
+// the goal's guard), then on one branch condition of the code (a type-assertion outcome or an if
+// condition): proved when every case is unsatisfiable.
+func splitProve(c *Ctx, g *Goal, o dischargeOpts) {
+	q := c.Query(g, nil)
+	var cands []string
+	seen := map[string]bool{}
+	// branch conditions named in the goal itself (merged results) come first
+	for _, tok := range tokenize(g.Guard + " " + g.Body) {
+		if (strings.HasPrefix(tok, "bc!") || strings.HasPrefix(tok, "c!") || strings.HasPrefix(tok, "taok!")) && !seen[tok] && len(cands) < 12 {
+			seen[tok] = true
+			cands = append(cands, tok)
+		}
+	}
+	for i := g.upto - 1; i >= 0 && len(cands) < 24; i-- {
+		it := c.Items[i]
+		if it.Kind != 0 || it.Sort != SBool || seen[it.Name] {
+			continue
+		}
+		if !(strings.HasPrefix(it.Name, "taok!") || strings.HasPrefix(it.Name, "c!")) {
+			continue
+		}
+		seen[it.Name] = true
+		cands = append(cands, it.Name)
+	}
+	at := strings.LastIndex(q, "(check-sat)")
+	if at < 0 {
+		return
+	}
+	var nq int32
+	prove1 := func(extra []string) bool {
+		var b strings.Builder
+		for _, e := range extra {
+			b.WriteString("(assert " + e + ")\n")
+		}
+		n := atomic.AddInt32(&nq, 1)
+		r, _ := race(q[:at]+b.String()+q[at:], o.Workdir, fmt.Sprintf("%s_split%d", g.Name, n), o.Timeout, false)
+		return r.Status == "unsat"
+	}
+	proveSplit := func(extra []string) (bool, string) {
+		if prove1(extra) {
+			return true, ""
+		}
+		type res struct {
+			name string
+			ok   bool
+		}
+		ch := make(chan res, len(cands))
+		for _, name := range cands {
+			go func(name string) {
+				ok := prove1(append(append([]string{}, extra...), name)) && prove1(append(append([]string{}, extra...), "(not "+name+")"))
+				ch <- res{name, ok}
+			}(name)
+		}
+		won := ""
+		for range cands {
+			if r := <-ch; r.ok && won == "" {
+				won = r.name
+			}
+		}
+		return won != "", won
+	}
+	t0 := time.Now()
+	var disj []string
+	if xs := parseSexprs(g.Guard); len(xs) == 1 {
+		var flat func(s *sx)
+		flat = func(s *sx) {
+			if !s.IsAtom && len(s.Kids) > 0 && s.Kids[0].IsAtom && s.Kids[0].Atom == "or" {
+				for _, k := range s.Kids[1:] {
+					flat(k)
+				}
+				return
+			}
+			disj = append(disj, s.String())
+		}
+		flat(xs[0])
+	}
+	how := ""
+	if len(disj) >= 2 {
+		for _, d := range disj {
+			ok, by := proveSplit([]string{d})
+			if !ok {
+				return
+			}
+			if by != "" {
+				how += " " + d + ":" + by
+			}
+		}
+		how = "case split per return path" + how
+	} else {
+		ok, by := proveSplit(nil)
+		if !ok {
+			return
+		}
+		how = "case split on " + by
+	}
+	g.Status = "proved"
+	g.Solver = how
+	g.Secs = time.Since(t0).Seconds()
+	g.Output = "every case unsat"
 }
 
 func discharge(c *Ctx, goals []*Goal, o dischargeOpts) {
@@ -922,6 +1026,9 @@ func discharge(c *Ctx, goals []*Goal, o dischargeOpts) {
 				}
 			default:
 				g.Status = "unknown"
+				if o.Split {
+					splitProve(c, g, o)
+				}
 			}
 		}()
 	}
